@@ -66,6 +66,7 @@ type c9prog struct {
 	n       int
 	created int
 	updated int
+	actions []string // names of the steps taken
 }
 
 func (p *c9prog) fresh(prefix string) string {
@@ -204,6 +205,9 @@ func (p *c9prog) step(c *fw.Ctx) {
 		add("slice", func() { p.declare(p.fresh("b"), pt.Slice{X: src}); p.created++ })
 		add("concat", func() { p.declare(p.fresh("b"), pt.Bin("+", src, pt.A())); p.created++ })
 		add("concat-self", func() { p.declare(p.fresh("b"), pt.Bin("+", src, src)); p.created++ })
+		// appending one element: the result of a concatenation has spare capacity, later results must not share it
+		add("concat-one", func() { p.declare(p.fresh("b"), pt.Bin("+", src, pt.A(k.elem))); p.created++ })
+		add("concat-other", func() { p.declare(p.fresh("b"), pt.Bin("+", src, pt.ArrLit{Els: k.v2.(pt.ArrLit).Els[:1]})); p.created++ })
 		add("repeat", func() { p.declare(p.fresh("b"), pt.Bin("*", src, pt.N(2))); p.created++ })
 	}
 	if T.K == pt.Bool {
@@ -298,7 +302,9 @@ func (p *c9prog) step(c *fw.Ctx) {
 		p.obs = append(p.obs, pt.V(n))
 		p.updated++
 	})
-	acts[c.Choose(len(acts), "action")].do()
+	a := acts[c.Choose(len(acts), "action")]
+	p.actions = append(p.actions, a.name)
+	a.do()
 }
 
 func runC09(w *fw.Worker) {
@@ -331,7 +337,14 @@ func runC09(w *fw.Worker) {
 					if p.created > 0 && p.updated > 0 {
 						w.Nontrivial()
 					}
-					v, _ := diffProg(w, "alias", src, prog, nil)
+					v, skip := diffProg(w, "alias", src, prog, nil)
+				for _, a := range p.actions {
+					if skip {
+						w.Count("action-skipped:"+a, 1)
+					} else {
+						w.Count("action-judged:"+a, 1)
+					}
+				}
 					if n == 2 && p.created > 0 && p.updated > 0 {
 						w.Sample(src)
 					}
